@@ -167,6 +167,11 @@ def run(ctx):
             check_split_index(rc, "T3", m, "rdp.rdp", allow_middle=False)
             check_children(rc, "T4", m, "rdp.rdp")
     rm.check_distance_dispatch(rc, "T3", "rdp.rdp")
+    # the helpers the rules above treat as opaque: the two distance primitives the split maximises and the endpoint fit the cost is measured against
+    from . import c17, c16
+    from .common import borrow
+    borrow(rc, "T3", c17._sec_shortest, c17._sec_perp)
+    borrow(rc, "T2", lambda rc_: c16.helper_contracts(rc_, "T2", ("linear_fit_points",)))
     _dispatch_table(rc)
 
 
